@@ -22,10 +22,21 @@ BUF = 16393
 BOUNDARY = [0, 1, 9, 16383, 16384, 16385, 16392, 16393, 16394, 32768, 32786, 65534, 65535, 65536, 65537, 131072]
 
 
+def _fix(front, back, req_fr, resp_fr):
+    if req_fr == "TR":
+        req_fr = "chunkedtr" if front == "h1" else "datatr"
+    if back == "h2" and resp_fr in ("cl", "chunked", "close"):
+        resp_fr = "datacl" if resp_fr == "cl" else "data"
+    if front == "h2" and req_fr in ("cl", "chunked"):
+        req_fr = "data"
+    return req_fr, resp_fr
+
+
 def scn(front, back, n, req_fr, req_size, resp_fr, resp_size, step=1, chunk=16384, pad=0, cfrag=0, cpause=0,
-        bfrag=0, bpause=0, sockbuf=0, win=65535, abort=0, seed=1, bufsz=BUF):
+        bfrag=0, bpause=0, sockbuf=0, win=65535, abort=0, seed=1, bufsz=BUF, stagger=0, bset_delay=0):
+    req_fr, resp_fr = _fix(front, back, req_fr, resp_fr)
     return ["blackbox", front, back, bufsz, n, req_fr, req_size, resp_fr, resp_size, step, chunk, pad, cfrag, cpause,
-            bfrag, bpause, sockbuf, win, abort, seed]
+            bfrag, bpause, sockbuf, win, abort, seed, stagger, bset_delay]
 
 
 def name_of(op):
@@ -55,14 +66,24 @@ def quick_scenarios(rng):
         scn("h2", "h1", 2, "none", 0, "close", rng.choice([b(), 70000]), seed=s()),
         # HTTP/2 over TLS -> h2c: concurrent streams, padding, small windows, pauses
         scn("h2", "h2", 4, "data", w(), "data", w(), pad=rng.choice([0, 9]), win=rng.choice([65535, 20000]), chunk=rng.choice([16375, 16384]), seed=s()),
-        scn("h2", "h2", 8, "data", 65536, "data", 131072, chunk=16375, cpause=100000, bpause=100000, seed=s()),
         scn("h2", "h2", 2, "data", 0, "data", 0, seed=s()),
+        # regression of ec88c70: streams attached one by one while the h2c backend is late with its SETTINGS
+        scn("h2", "h2", 4, "data", 1000, "data", 1000, chunk=16375, stagger=1, bset_delay=30, seed=s()),
+        # the TLS front's write path under pressure: the client announces a huge window, stops reading after 1000 bytes
+        # and resumes only when the backend is persistently stuck (sozu's rustls + socket buffers are full by then)
+        scn("h2", "h1", 1, "none", 0, "cl", 8000000, step=0, cpause=1000, sockbuf=65536, win=1 << 30, seed=s()),
+        # answers that may not carry a body (HEAD, 204, 304): none may appear, the connection stays usable
+        scn("h1", "h1", 3, "head", 0, "head", 5000, seed=s()),
+        scn("h2", rng.choice(["h1", "h2"]), 3, rng.choice(["none", "data"]), 100, rng.choice(["s204", "s304"]), 0, seed=s()),
+        # trailers after a chunked body / after the last DATA frame, both directions
+        scn(rng.choice(["h1", "h2"]), "h1", 2, "TR", 20000, "chunkedtr", 30000, chunk=1000, seed=s()),
+        scn(rng.choice(["h1", "h2"]), "h2", 2, "TR", 20000, "datatr", 30000, chunk=1000, seed=s()),
+        # HTTP/1.1 pipelining: the whole sequence in one write, bodies included
+        scn("h1", rng.choice(["h1", "h2"]), 3, rng.choice(["cl", "chunked"]), 5000, "cl" , 7000, chunk=1000, stagger=2, seed=s()),
         # unclean ends stay unclean
         scn("h1", "h1", 1, "cl", 50000, rng.choice(["cl", "chunked"]), 50000, chunk=1000, abort=1, seed=s()),
         scn("h2", "h2", 1, "data", 50000, "data", 50000, chunk=1000, abort=1, seed=s()),
         scn("h1", "h1", 1, rng.choice(["cl", "chunked"]), 50000, "cl", 100, chunk=1000, abort=2, seed=s()),
-        # the shape of the open finding `proxy-wedged` (small client socket buffers, 8 bidirectional H2->h2c streams)
-        scn("h2", "h2", 8, "data", 65536, "data", 131072, chunk=16384, sockbuf=16384, seed=s()),
     ]
 
 
@@ -79,7 +100,13 @@ def random_scenario(rng, big=False):
         req_fr = rng.choice(["cl", "chunked", "none"])
     else:
         req_fr = rng.choice(["data", "data", "none"])
-    resp_fr = rng.choice(["cl", "chunked", "close"]) if back == "h1" else rng.choice(["data", "datacl"])
+    resp_fr = rng.choice(["cl", "chunked", "close", "chunkedtr"]) if back == "h1" else rng.choice(["data", "datacl", "datatr"])
+    if rng.random() < 0.1:
+        req_fr = "chunkedtr" if front == "h1" else "datatr"
+    if rng.random() < 0.08:
+        resp_fr = rng.choice(["s204", "s304", "head"])
+        if resp_fr == "head":
+            req_fr = "head"
     smallest = min([x for x in (req_size if req_fr != "none" else None, resp_size) if x is not None] or [0])
     largest = max(req_size if req_fr != "none" else 0, resp_size)
     chunks = [100, 1000, 4096, 16375, 16384]
@@ -91,8 +118,12 @@ def random_scenario(rng, big=False):
         chunks = [4096, 16384]
     h2_sender = front == "h2" or back == "h2"
     if h2_sender:
-        # thousands of tiny DATA frames per stream look like a flood to sozu's H2 guards: tiny units only for H1 chunked
-        chunks = [c for c in chunks if c >= 100]
+        # thousands of tiny DATA frames per stream look like a flood to sozu's H2 guards, and ~6000 frames in one burst
+        # run into the open finding on Mux::ready's loop budget: at most ~2500 DATA frames per scenario
+        # (the write-size cycle averages 5/6 of the unit)
+        def frames(u):
+            return n * largest / max(1.0, (5 * u + 4) / 6.0)
+        chunks = [c for c in chunks if c >= 100 and frames(c) <= 2500] or [16384]
     chunk = rng.choice(chunks)
     pad = rng.choice([0, 0, 1, 9, 255]) if largest <= 300000 and chunk >= 100 else 0
     win = rng.choice([65535, 65535, 20000, 1 << 20] + ([1000] if largest <= 70000 else []))
@@ -104,15 +135,23 @@ def random_scenario(rng, big=False):
         n = 1
         if resp_fr == "close":
             resp_fr = "cl"
-        if req_fr == "none":
+        if req_fr in ("none", "head"):
             abort = 1
+        if resp_fr in ("head", "s204", "s304"):
+            abort = 0
     return scn(front, back, n, req_fr, req_size, resp_fr, resp_size, step=rng.choice([0, 1, 9]), chunk=chunk, pad=pad,
                cfrag=frag(), cpause=pause(), bfrag=frag(), bpause=pause(), sockbuf=sockbuf, win=win, abort=abort,
-               seed=rng.randrange(1, 10 ** 6), bufsz=rng.choice([BUF, BUF, 32768]))
+               seed=rng.randrange(1, 10 ** 6), bufsz=rng.choice([BUF, BUF, 32768]),
+               stagger=int(front == "h2" and back == "h2" and rng.random() < 0.2) or (2 if front == "h1" and not abort and resp_fr != "close" and rng.random() < 0.2 else 0), bset_delay=rng.choice([0, 0, 0, 30]) if back == "h2" else 0)
 
 
 def scenarios(tier, rng):
     ops = quick_scenarios(rng)
+    if tier != "quick":
+        # wedge-prone under load (open finding proxy-wedged): not in the quick tier, which keeps one such scenario only
+        ops.append(scn("h2", "h2", 8, "data", 65536, "data", 131072, chunk=16375, cpause=100000, bpause=100000, seed=rng.randrange(1, 10 ** 6)))
+        # the shape that wedges every time (small client socket buffers, 8 bidirectional H2->h2c streams)
+        ops.append(scn("h2", "h2", 8, "data", 65536, "data", 131072, chunk=16384, sockbuf=16384, seed=rng.randrange(1, 10 ** 6)))
     if tier == "thorough":
         ops += [random_scenario(rng) for _ in range(300)]
         ops += [random_scenario(rng, big=True) for _ in range(6)]
@@ -134,7 +173,7 @@ def extra_stage(tier, rng, work):
     ops = scenarios(tier, rng)
     cases = [Case("bb%d_%s" % (i, name_of(op)), [op], dict(kind="blackbox")) for i, op in enumerate(ops)]
     w = os.path.join(work, "c01bb")
-    outs, problems = run(cases, w, min(16, len(cases)) if tier == "quick" else 8, 1500)
+    outs, problems = run(cases, w, 8, 1500)
     res["failures"] += problems
     suspects, done, moved = [], 0, 0
     for c in cases:
